@@ -1018,6 +1018,18 @@ func genSeqGrid(r *rng, n int, p func(string, ...any)) {
 			p("smempty %s %d empty", hexs(sm.enc()), i)
 		}
 	}
+	// … and the same for every one-signature structure (a decoded value keeps both raw buckets)
+	{
+		pb := wBstr(wMap(wInt(1), wInt(-7)).enc())
+		s1 := wArr(pb, wMap(wInt(4), wBstr([]byte{0x31})), wBstr([]byte{9}), wBstr([]byte{1, 2}))
+		sg := wArr(pb.clone(), wMap(wInt(4), wBstr([]byte{0x31})), wBstr([]byte{1, 2}))
+		for _, how := range []string{"nil", "empty"} {
+			p("empt s1 %s %s", hexs(wTag(18, s1).enc()), how)
+			p("empt s1u %s %s", hexs(s1.enc()), how)
+			p("empt sig %s %s", hexs(sg.enc()), how)
+			p("empt csig %s %s", hexs(sg.enc()), how)
+		}
+	}
 	// C02 / C18: verify, change the retained protected bytes in place, verify again
 	for i := 0; i < n/4+20; i++ {
 		kind := []string{"s1", "sm"}[r.intn(2)]
